@@ -130,6 +130,20 @@ class Scratch:
         self.cleanup()
 
 
+def sweep_dead_scratch():
+    """Workers that were killed by a watchdog cannot remove their scratch root; whoever finishes a check removes the
+    roots (named <tag>-<pid>-...) whose owning process no longer exists."""
+    base = "/dev/shm" if os.path.isdir("/dev/shm") else tempfile.gettempdir()
+    try:
+        names = os.listdir(base)
+    except OSError:
+        return
+    for n in names:
+        parts = n.split("-")
+        if len(parts) >= 3 and parts[0].startswith("cv") and parts[1].isdigit() and not os.path.exists("/proc/" + parts[1]):
+            shutil.rmtree(os.path.join(base, n), ignore_errors=True)
+
+
 # --------------------------------------------------------------------------------------------
 # fork pool: survives dying workers, per-case wall-clock watchdog => inconclusive
 # --------------------------------------------------------------------------------------------
@@ -342,6 +356,7 @@ class Report:
                 self.inconc("case " + kind, None if cases is None else short_hash(cases[i]))
 
     def finish(self, required_reach=()):
+        sweep_dead_scratch()
         known = load_known()
         open_keys = {}
         for f in known.get("findings", []):
